@@ -10,6 +10,8 @@ E2 the reference energy for the next acceptance test (context.last_potential_ene
 E3 (Hamiltonian moves apart) a trial that reaches its criteria costs exactly one evaluation, a failed
    one none, and after every trial the cache is coherent, so logging the energy is a cache hit
 E4 before the first trial the reference energy is that of the initial configuration
+E5 the calculator stays usable: whenever calc.atoms carries the live atom set (so ASE will not report a `numbers`
+   change and calculators will not re-initialise), the calculator's last real calculation was on that atom set
 """
 
 from __future__ import annotations
@@ -133,6 +135,22 @@ def check_trial(prog: Program, sc, rec) -> list[dict]:
             viol("E3", f"{func}:resync", w.where if w else "",
                  f"after a {rec.outcome} trial the calculator cache is not coherent with the atoms (calc.atoms at {str(ccfg)[:90]}, atoms at {str(cfg)[:90]}, results {str(R)[:60]}): "
                  "logging the current energy or the next trial's reference costs a recomputation", "resync")
+    # ---- E5 per-atom internal state of the calculator (neighbour lists …)
+    I = simp(m.heap["calc"].get("I", ("none",)))
+    live_A = simp(m.heap["atoms"]["A"])
+    ca_A = simp(m.heap["calcatoms"]["A"])
+    stale_now = [e for e in rec.events if e.kind == "calc-stale-state"]
+    if stale_now:
+        e = stale_now[0]
+        viol("E5", f"{e.func}:stale-calculator-state@{scen}", e.where, f"`{e.detail}` in {e.func}: ASE reports no change of the atom set, so the calculator updates neighbour lists built for {str(e.data['I'])[:80]} with atoms {str(e.data['A'])[:80]}", "stale-state")
+    elif I != ("none",) and ca_A == live_A and I != live_A:
+        owner = _resync_owner(prog, sc) or f"{rec.driver}.revert_state"
+        viol("E5", f"{owner}:calculator-internal-state@{scen}", "",
+             f"after a {rec.outcome} trial calc.atoms is set to the current atom set ({str(live_A)[:70]}) while the calculator's last real calculation — and with it its per-atom internal state "
+             f"(neighbour lists) — was on {str(I)[:90]}: the next evaluation reports no `numbers` change, the calculator does not re-initialise and works on arrays of the wrong length",
+             "internal-state")
+    else:
+        ok("E5", f"{scen}:{rec.outcome}:calculator-internal-state")
     # ---- E4
     if rec.index == 0 and "last_potential_energy" in rec.ctx_before:
         v = rec.ctx_before["last_potential_energy"]
@@ -157,13 +175,17 @@ def run(prog: Program, L: Ledger) -> None:
         "For every driver × move-table scenario and every abstract path, after each accepted, rejected or failed trial: cached "
         "results are never attributed to another configuration, the reference energy and remembered geometry are those of the "
         "current configuration, and (Hamiltonian moves apart) the number of evaluations is exactly one per trial that reaches its "
-        "criteria with a coherent cache afterwards. Not decided: calculators with hidden internal state (neighbour lists), the "
-        "actual number of force calls inside an integrator."
+        "criteria with a coherent cache afterwards. Calculators with per-atom internal state (neighbour lists) are modelled by one more "
+        "component: the atom set of the last real calculation, rebuilt only when ASE reports a `numbers` change (validated on the installed "
+        "EMT and LennardJones sources); hand-written cache resynchronisation must not make the calculator believe that state is current. "
+        "Not decided: the actual number of force calls inside an integrator."
     )
     L.rule("E1", "calculator results are never attributed to a configuration they were not computed for (at trial end and at every cached read)")
     L.rule("E2", "after every trial context.last_potential_energy is the energy of the current configuration; last_positions/last_cell equal the current ones")
     L.rule("E3", "non-Hamiltonian trials: exactly one evaluation if the criteria are reached, none if the move failed; cache coherent after the trial (logging costs nothing)")
     L.rule("E4", "validate_simulation establishes the reference energy of the initial configuration before the first trial")
+    L.rule("E5", "whenever calc.atoms has the live atom set, the calculator's per-atom internal state (rebuilt only when ASE reports a `numbers` change) was built for that atom set")
+    L.assume(asetab.validate_calculator_reinit())
     L.assume(asetab.validate_calculator_cache())
     for k, v in asetab.validate_atoms_setters().items():
         L.assume(f"ASE {k}: {v}")
